@@ -79,3 +79,13 @@ impl LeShim for f32 { type Out = [u8; 4]; open spec fn out_view(o: [u8; 4]) -> S
     #[verifier::external_body] fn to_le_bytes_shim(self) -> (r: [u8; 4]) { self.to_le_bytes() } }
 impl LeShim for f64 { type Out = [u8; 8]; open spec fn out_view(o: [u8; 8]) -> Seq<u8> { o@ } open spec fn le_spec(self) -> Seq<u8> { f64_le(self) }
     #[verifier::external_body] fn to_le_bytes_shim(self) -> (r: [u8; 8]) { self.to_le_bytes() } }
+
+/// `vec![0_u8; n]` of the reader code, with the C09 allocation bound as precondition: one call may allocate a zeroed buffer only for a
+/// size that is bounded by a constant of the format (largest one in the reader: MAX_XML_SIZE = 10 MiB), never for a number taken
+/// unchecked from the file
+#[verifier::external_body]
+pub fn shim_vec_u8_zeros(n: usize) -> (r: Vec<u8>)
+    requires n <= 0xA0_0000
+    ensures r@.len() == n, forall|i: int| 0 <= i < n ==> r@[i] == 0u8
+{ vec![0; n] }
+
